@@ -502,6 +502,15 @@ func specCur(params x86genParams, ctx *CodeGenContext) int64 {
 	return int64(ctx.DollarPosition) + int64(params.MachineCodeLen)
 }
 
+// specDestOK: the first operand is a number (what pass 2 hands over for a resolved target).
+func specDestOK(params x86genParams) bool {
+	if len(params.OCode.Operands) < 1 {
+		return false
+	}
+	_, err := strconv.ParseInt(params.OCode.Operands[0], 0, 64)
+	return err == nil
+}
+
 // specDest: the numeric branch target handed over by pass 2 (first operand).
 func specDest(params x86genParams) int64 {
 	v, _ := strconv.ParseInt(params.OCode.Operands[0], 0, 64)
@@ -510,6 +519,15 @@ func specDest(params x86genParams) int64 {
 
 func specBytesEq(a, b []byte) bool {
 	return len(a) == len(b) && forall(0, len(a), func(k int) bool { return a[k] == b[k] })
+}
+
+// specBytesEq8: equality of two byte strings of at most 8 bytes (quantifier free).
+func specBytesEq8(a, b []byte) bool {
+	return len(a) == len(b) && len(a) <= 8 &&
+		(len(a) <= 0 || a[0] == b[0]) && (len(a) <= 1 || a[1] == b[1]) &&
+		(len(a) <= 2 || a[2] == b[2]) && (len(a) <= 3 || a[3] == b[3]) &&
+		(len(a) <= 4 || a[4] == b[4]) && (len(a) <= 5 || a[5] == b[5]) &&
+		(len(a) <= 6 || a[6] == b[6]) && (len(a) <= 7 || a[7] == b[7])
 }
 
 //@ func getOffsetSize
@@ -536,9 +554,37 @@ func specBytesEq(a, b []byte) bool {
 //@ ensures[target.jcc16] result1 == nil && specCC(params.OCode.Kind) >= 0 && ctx.BitMode == cpu.MODE_16BIT ==> specBranchOK(16, result0, 3, specCC(params.OCode.Kind), specCur(params, ctx), specDest(params))
 //@ ensures[target.jcc32] result1 == nil && specCC(params.OCode.Kind) >= 0 && ctx.BitMode == cpu.MODE_32BIT ==> specBranchOK(32, result0, 3, specCC(params.OCode.Kind), specCur(params, ctx), specDest(params))
 //@ ensures[far]    result1 == nil && params.OCode.Kind == ocode.OpJMP_FAR ==> specFarJmpShape(specMode(ctx.BitMode), result0)
+//@ relates[shift.jmp@C16] params.OCode.Kind == ocode.OpJMP && ctx.BitMode == ctx_2.BitMode && params.OCode.Kind == params_2.OCode.Kind && params.MachineCodeLen == params_2.MachineCodeLen && specDestOK(params) && specDestOK(params_2) && specDest(params_2) - specCur(params_2, ctx_2) == specDest(params) - specCur(params, ctx) ==> (result1 == nil) == (result1_2 == nil) && (result1 == nil ==> specBytesEq8(result0, result0_2))
+//@ relates[shift.jcc@C16] specCC(params.OCode.Kind) >= 0 && ctx.BitMode == ctx_2.BitMode && params.OCode.Kind == params_2.OCode.Kind && params.MachineCodeLen == params_2.MachineCodeLen && specDestOK(params) && specDestOK(params_2) && specDest(params_2) - specCur(params_2, ctx_2) == specDest(params) - specCur(params, ctx) ==> (result1 == nil) == (result1_2 == nil) && (result1 == nil ==> specBytesEq8(result0, result0_2))
 
 //@ func handleCALL
 //@ props C04 C16
 //@ requires ctx != nil && (ctx.BitMode == cpu.MODE_16BIT || ctx.BitMode == cpu.MODE_32BIT)
 //@ requires ctx.DollarPosition <= 0xFFFFFFFF && 0 <= params.MachineCodeLen && params.MachineCodeLen <= 0x7FFFFFFF
 //@ ensures[target] result1 == nil ==> specBranchOK(specMode(ctx.BitMode), result0, 2, -1, specCur(params, ctx), specDest(params))
+//@ relates[shift@C16] params.OCode.Kind != ocode.OpJMP_FAR && ctx.BitMode == ctx_2.BitMode && params.OCode.Kind == params_2.OCode.Kind && params.MachineCodeLen == params_2.MachineCodeLen && specDestOK(params) && specDestOK(params_2) && specDest(params_2) - specCur(params_2, ctx_2) == specDest(params) - specCur(params, ctx) ==> (result1 == nil) == (result1_2 == nil) && (result1 == nil ==> specBytesEq8(result0, result0_2))
+
+// ---------------------------------------------------------------------------
+// Data directives (C05)
+// ---------------------------------------------------------------------------
+
+// specAtoi: the number a decimal operand string denotes (what pass 1 formatted).
+func specAtoi(s string) int {
+	v, _ := strconv.Atoi(s)
+	return v
+}
+
+//@ func handleDB
+//@ props C05 C03
+//@ loop 0 invariant len(binary) == iter && forall(0, iter, func(k int) bool { return binary[k] == byte(specAtoi(args[k])) })
+//@ ensures[bytes] len(result0) == len(args) && forall(0, len(args), func(k int) bool { return result0[k] == byte(specAtoi(args[k])) })
+
+//@ func handleDW
+//@ props C05 C03
+//@ loop 0 invariant len(binary) == 2*iter && forall(0, iter, func(k int) bool { return binary[2*k] == byte(specAtoi(args[k])) && binary[2*k+1] == byte(specAtoi(args[k])>>8) })
+//@ ensures[bytes] len(result0) == 2*len(args) && forall(0, len(args), func(k int) bool { return result0[2*k] == byte(specAtoi(args[k])) && result0[2*k+1] == byte(specAtoi(args[k])>>8) })
+
+//@ func handleDD
+//@ props C05 C03
+//@ loop 0 invariant len(binary) == 4*iter && forall(0, iter, func(k int) bool { return binary[4*k] == byte(specAtoi(args[k])) && binary[4*k+1] == byte(specAtoi(args[k])>>8) && binary[4*k+2] == byte(specAtoi(args[k])>>16) && binary[4*k+3] == byte(specAtoi(args[k])>>24) })
+//@ ensures[bytes] len(result0) == 4*len(args) && forall(0, len(args), func(k int) bool { return result0[4*k] == byte(specAtoi(args[k])) && result0[4*k+1] == byte(specAtoi(args[k])>>8) && result0[4*k+2] == byte(specAtoi(args[k])>>16) && result0[4*k+3] == byte(specAtoi(args[k])>>24) })
